@@ -1550,6 +1550,24 @@ func (fc *FnCtx) havocItem(st *State, pre *State, item string, env *SpecEnv) {
 			// not produced by the parser; kept for completeness
 		}
 	case *SIdent:
+		// a local variable of the calling function (caller-scoped extern whose callee runs the caller's literals)
+		{
+			var best types.Object
+			for o := range st.vars {
+				if o.Name() == x.Name && (best == nil || o.Pos() > best.Pos()) {
+					best = o
+				}
+			}
+			if best != nil {
+				nv := fc.freshVal(st, "al_"+best.Name(), best.Type())
+				if fc.isBoxed(best) {
+					fc.storeDeref(st, st.vars[best], nv)
+				} else {
+					st.vars[best] = nv
+				}
+				return
+			}
+		}
 		// a global variable
 		if env.pkg != nil {
 			if o, ok := env.pkg.Types.Scope().Lookup(x.Name).(*types.Var); ok {
